@@ -998,13 +998,6 @@ func genProgram(r *rng) (*igen, iOpts) {
 	// main -> a -> b and main -> b)
 	collided := r.chance(40)
 	if collided {
-		// functions inherited from a service of an included file are compiled with the cache of the main file (finding 1408):
-		// name collisions are generated without cross-file inheritance here, the witness of 1408 is check 1408
-		for _, f := range g.prog {
-			for _, sv := range f.Svcs {
-				sv.Extends = ""
-			}
-		}
 		for _, inc := range mainF.Includes {
 			if r.chance(60) {
 				g.collide(0, inc.Idx)
@@ -1023,7 +1016,7 @@ func genProgram(r *rng) (*igen, iOpts) {
 		last := mainF.Svcs[len(mainF.Svcs)-1]
 		done := false
 		for _, inc := range mainF.Includes {
-			if f := g.prog[inc.Idx]; len(f.Svcs) > 0 && r.chance(60) && !done && !collided {
+			if f := g.prog[inc.Idx]; len(f.Svcs) > 0 && r.chance(60) && !done {
 				last.Extends = inc.Alias + "." + f.Svcs[0].Name
 				done = true
 			}
@@ -1031,6 +1024,9 @@ func genProgram(r *rng) (*igen, iOpts) {
 		if !done && len(mainF.Svcs) > 1 && r.chance(25) {
 			last.Extends = mainF.Svcs[0].Name // same-file inheritance
 		}
+	}
+	if r.chance(35) {
+		g.addChain()
 	}
 	o := iOpts{MapWay: r.intn(3), FnMode: []int{0, 0, 1, 2}[r.intn(4)], SvcMode: r.intn(3), Enum64: r.bool(), OptBitmap: r.bool(),
 		UseDefault: r.chance(70), Base: r.bool(), BodyFast: r.bool(), PutNS: r.chance(30), PutFile: r.chance(30)}
@@ -1241,6 +1237,112 @@ func (g *igen) collide(pi, di int) {
 	}
 }
 
+// `extends` chain of 2-3 cross-file hops: main.Last extends m1.X, m1.X extends m2.Y [, m2.Y extends m3.Z].  The include lists of the
+// files differ in order and length (the index of the base file in the include list of the extending file is what thriftgo
+// records), unrelated includes hold services with the same names as the chain's (decoys with their own functions), and the
+// graph may contain diamonds (main including a file further up the chain).
+func (g *igen) addChain() {
+	r := g.r
+	mainF := g.prog[0]
+	if len(mainF.Svcs) == 0 {
+		return
+	}
+	hops := 2 + r.intn(2)
+	names := make([]string, hops)
+	for i := range names {
+		names[i] = g.fresh("Chain")
+	}
+	leaf := func(path string, svcNames []string) int {
+		f := &iFile{Path: path}
+		st := &iStruct{Name: g.fresh("CS")}
+		st.Fields = []*iField{{ID: 1, Name: g.fresh("cf"), T: &iTexpr{Tag: 0, Base: r.intn(9)}}}
+		f.Structs = []*iStruct{st}
+		for _, sn := range svcNames {
+			sv := &iSvc{Name: sn}
+			for j, m := 0, 1+r.intn(2); j < m; j++ {
+				sv.Funcs = append(sv.Funcs, &iFunc{Name: g.fresh("CM"), Ret: &iTexpr{Tag: 4, Name: st.Name}, Args: []*iField{{ID: 1, Name: "req", T: &iTexpr{Tag: 4, Name: st.Name}}}})
+			}
+			f.Svcs = append(f.Svcs, sv)
+		}
+		g.prog = append(g.prog, f)
+		return len(g.prog) - 1
+	}
+	include := func(fi, di int, front bool) {
+		f := g.prog[fi]
+		p := g.prog[di].Path
+		inc := struct {
+			Alias string
+			Idx   int
+		}{strings.TrimSuffix(p[strings.LastIndex(p, "/")+1:], ".thrift"), di}
+		for _, x := range f.Includes {
+			if x.Idx == di {
+				return
+			}
+		}
+		if front {
+			f.Includes = append([]struct {
+				Alias string
+				Idx   int
+			}{inc}, f.Includes...)
+		} else {
+			f.Includes = append(f.Includes, inc)
+		}
+	}
+	tag := g.fresh("")
+	// decoy files: unrelated includes holding services named like the chain's
+	d1 := leaf("/x/u"+tag+".thrift", append([]string{}, names...))
+	d2 := leaf("/x/v"+tag+".thrift", append([]string{}, names[r.intn(len(names)):]...))
+	idx := make([]int, hops)
+	for i := range idx {
+		idx[i] = leaf(fmt.Sprintf("/x/m%d%s.thrift", i+1, tag), []string{names[i]})
+	}
+	// hop i+1 -> hop i+2, with padding includes before / after so that the indices differ from file to file
+	for i := 0; i+1 < hops; i++ {
+		if r.bool() {
+			include(idx[i], d1, r.bool())
+		}
+		include(idx[i], idx[i+1], r.bool())
+		if r.bool() {
+			include(idx[i], d2, r.bool())
+		}
+		if i+2 < hops && r.chance(40) {
+			include(idx[i], idx[i+2], r.bool()) // diamond inside the chain
+		}
+		a := ""
+		for _, x := range g.prog[idx[i]].Includes {
+			if x.Idx == idx[i+1] {
+				a = x.Alias
+			}
+		}
+		g.prog[idx[i]].Svcs[0].Extends = a + "." + names[i+1]
+	}
+	// main -> hop 1; main may also include decoys and files further up the chain, in any position
+	if r.bool() {
+		include(0, d1, r.bool())
+	}
+	if r.chance(40) {
+		include(0, idx[hops-1], r.bool())
+	}
+	include(0, idx[0], r.bool())
+	if r.bool() {
+		include(0, d2, r.bool())
+	}
+	a := ""
+	for _, x := range mainF.Includes {
+		if x.Idx == idx[0] {
+			a = x.Alias
+		}
+	}
+	last := mainF.Svcs[len(mainF.Svcs)-1]
+	if r.chance(25) && len(mainF.Svcs) > 1 {
+		// one more same-file hop in front: Last extends First (same file), First extends the chain
+		last.Extends = mainF.Svcs[0].Name
+		mainF.Svcs[0].Extends = a + "." + names[0]
+	} else {
+		last.Extends = a + "." + names[0]
+	}
+}
+
 func freeID(fs []*iField, id int) int {
 	for {
 		used := false
@@ -1256,7 +1358,7 @@ func freeID(fs []*iField, id int) int {
 	}
 }
 
-// witness of finding 1408: main and a.thrift both declare struct N; `service Main extends a.Base`; the inherited function's bare N
+// witness family of finding 1408 (fixed by d1874f3, kept as a regression case): main and a.thrift both declare struct N; `service Main extends a.Base`; the inherited function's bare N
 func c14Inherit1408(r *rng) {
 	g := &igen{r: r}
 	n := g.fresh("Item")
